@@ -493,3 +493,18 @@ def finish(prop, violations, known_hits):
         log(f"  {summary}")
     sys.stdout.flush()
     sys.exit(1 if violations else 0)
+
+
+def replay_fallback(mod, prop, path):
+    """--replay for checks without a single-case re-execution: show the recorded case (a replay file is self-contained:
+    program / history / operands, expected, observed), then re-run the check of the tier that wrote the file on the
+    current tree; exit 1 with VIOLATION lines if violations (this one or others) are found again."""
+    payload = json.load(open(path))
+    print(f"replay file {path} (property {payload.get('property', prop)}):")
+    for k, v in payload.items():
+        t = json.dumps(v, ensure_ascii=False)
+        print(f"  {k}: {t[:400]}{' ...' if len(t) > 400 else ''}")
+    tier = "thorough" if "-thorough-" in os.path.basename(path) else "quick"
+    print(f"re-running bin/check {prop} --tier {tier} on the current tree")
+    sys.stdout.flush()
+    mod.run(prop, tier)
